@@ -20,18 +20,26 @@ theorem S_cases (p : P) : p.S = 512 ∨ p.S = 4096 := by
 
 def SS (p : P) : Prop := ∀ (i : Nat) (sec : ByteArray), p.sectors[i]? = some sec → sec.size = p.S
 
+/-- the FAT fits into the FAT sectors the DIFAT lists -/
+def Cap (p : P) : Prop := p.fat.size ≤ p.difat.length * p.epsec
+
 structure GS (p p' : P) : Prop where
   v4 : p'.v4 = p.v4
   ss : SS p → SS p'
+  cap : Cap p → Cap p'
 
-theorem GS.refl (p : P) : GS p p := ⟨rfl, fun h => h⟩
-theorem GS.trans {p q r : P} (h1 : GS p q) (h2 : GS q r) : GS p r := ⟨h2.v4.trans h1.v4, fun h => h2.ss (h1.ss h)⟩
+theorem GS.refl (p : P) : GS p p := ⟨rfl, fun h => h, fun h => h⟩
+theorem GS.trans {p q r : P} (h1 : GS p q) (h2 : GS q r) : GS p r :=
+  ⟨h2.v4.trans h1.v4, fun h => h2.ss (h1.ss h), fun h => h2.cap (h1.cap h)⟩
 
-/-- sectors and version untouched -/
-def SameSecs (p q : P) : Prop := q.sectors = p.sectors ∧ q.v4 = p.v4
+/-- sectors, version, the FAT's size and the DIFAT untouched -/
+def SameSecs (p q : P) : Prop := q.sectors = p.sectors ∧ q.v4 = p.v4 ∧ q.fat.size = p.fat.size ∧ q.difat = p.difat
+
+theorem epsec_of_v4 {p p' : P} (h : p'.v4 = p.v4) : p'.epsec = p.epsec := by unfold P.epsec; rw [S_of_v4 h]
 
 theorem GS.of_same {p q : P} (h : SameSecs p q) : GS p q :=
-  ⟨h.2, fun s i sec hi => by rw [S_of_v4 h.2]; exact s i sec (by rw [← h.1]; exact hi)⟩
+  ⟨h.2.1, fun s i sec hi => by rw [S_of_v4 h.2.1]; exact s i sec (by rw [← h.1]; exact hi),
+    fun c => by unfold Cap; rw [h.2.2.1, h.2.2.2, epsec_of_v4 h.2.1]; exact c⟩
 
 theorem size_copySlice_within (src dest : ByteArray) (destOff len : Nat) (hs : len = src.size)
     (h : destOff + len ≤ dest.size) : (src.copySlice 0 dest destOff len).size = dest.size := by
@@ -58,7 +66,7 @@ theorem ss_set {p : P} {id : Nat} {sec : ByteArray} (s : SS p) (h : sec.size = p
 theorem gs_initSector {p p' : P} {id : Nat} {k : Init} (h : initSector p id k = .ok p') : GS p p' := by
   rcases initSector_ok h with ⟨_, he⟩ | ⟨_, he⟩
   · subst he
-    refine ⟨rfl, ?_⟩
+    refine ⟨rfl, ?_, fun c => c⟩
     intro s i x hi
     have hi' : (p.sectors.push (zeroSector p.S))[i]? = some x := hi
     simp only [Array.getElem?_push] at hi'
@@ -66,7 +74,7 @@ theorem gs_initSector {p p' : P} {id : Nat} {k : Init} (h : initSector p id k = 
     · cases hi'; exact size_zeroSector _
     · exact s i x hi'
   · subst he
-    exact ⟨rfl, fun s => ss_set s (size_zeroSector _)⟩
+    exact ⟨rfl, fun s => ss_set s (size_zeroSector _), fun c => c⟩
 
 /-- a write that stays inside the sector -/
 theorem gs_writeSector {p p' : P} {id off : Nat} {bs : Bytes} (h : writeSector p id off bs = .ok p')
@@ -76,22 +84,57 @@ theorem gs_writeSector {p p' : P} {id off : Nat} {bs : Bytes} (h : writeSector p
   · cases h
   · rename_i sec hsec
     cases h
-    refine ⟨rfl, ?_⟩
+    refine ⟨rfl, ?_, fun c => c⟩
     intro s
     refine ss_set s ?_
     have hs := s id sec hsec
     exact (size_copySlice_within _ _ _ _ (by simp [ByteArray.size]) (by rw [hs]; exact hin)).trans hs
 
-theorem ssm_setFat {p p' : P} {i v : Nat} (h : setFat p i v = .ok p') : SameSecs p p' := by
-  rcases setFat_ok h with ⟨_, he⟩ | ⟨_, he⟩ <;> subst he <;> exact ⟨rfl, rfl⟩
+/-- `set_fat` looks the FAT sector of the cell up in the DIFAT first -/
+theorem setFat_guard {p p' : P} {i v : Nat} (h : setFat p i v = .ok p') : i < p.difat.length * p.epsec := by
+  unfold setFat at h
+  split at h
+  · cases h
+  · rename_i x hx
+    have hlt : i / p.epsec < p.difat.length := by
+      rcases Nat.lt_or_ge (i / p.epsec) p.difat.length with hc | hc
+      · exact hc
+      · rw [List.getElem?_eq_none hc] at hx; cases hx
+    have hpos : 0 < p.epsec := by
+      unfold P.epsec
+      rcases S_cases p with hS | hS <;> rw [hS] <;> decide
+    exact (Nat.div_lt_iff_lt_mul hpos).mp hlt
 
-theorem gs_setFat {p p' : P} {i v : Nat} (h : setFat p i v = .ok p') : GS p p' := GS.of_same (ssm_setFat h)
+theorem gs_setFat {p p' : P} {i v : Nat} (h : setFat p i v = .ok p') : GS p p' := by
+  have hg := setFat_guard h
+  rcases setFat_ok h with ⟨hi, he⟩ | ⟨hi, he⟩
+  · subst he
+    refine ⟨rfl, fun s => s, ?_⟩
+    intro _
+    show (p.fat.push v).size ≤ p.difat.length * p.epsec
+    simp only [Array.size_push]
+    omega
+  · subst he
+    refine ⟨rfl, fun s => s, ?_⟩
+    intro c
+    show (p.fat.setIfInBounds i v).size ≤ p.difat.length * p.epsec
+    have c' : p.fat.size ≤ p.difat.length * p.epsec := c
+    simpa using c'
+
+/-- one more DIFAT entry -/
+theorem gs_growDifat (p : P) (x : Nat) : GS p { p with difat := p.difat ++ [x] } := by
+  refine ⟨rfl, fun s => s, ?_⟩
+  intro c
+  show p.fat.size ≤ (p.difat ++ [x]).length * p.epsec
+  have : (p.difat ++ [x]).length = p.difat.length + 1 := by simp
+  rw [this, Nat.add_mul]
+  exact Nat.le_trans c (Nat.le_add_right _ _)
 
 theorem gs_appendFatSector {p p' : P} (h : appendFatSector p = .ok p') : GS p p' := by
   unfold appendFatSector at h
   obtain ⟨p1, h1, h⟩ := bind_ok h
   obtain ⟨p2, h2, h⟩ := bind_ok h
-  have s12 : GS p p2 := (gs_initSector h1).trans ((GS.of_same (⟨rfl, rfl⟩ : SameSecs p1 { p1 with difat := p1.difat ++ [p.fat.size] })).trans (gs_setFat h2))
+  have s12 : GS p p2 := (gs_initSector h1).trans ((gs_growDifat p1 p.fat.size).trans (gs_setFat h2))
   split at h
   · cases h; exact s12
   · dsimp only at h
@@ -99,7 +142,7 @@ theorem gs_appendFatSector {p p' : P} (h : appendFatSector p = .ok p') : GS p p'
     · obtain ⟨p3, h3, h⟩ := bind_ok h
       obtain ⟨p4, h4, h⟩ := bind_ok h
       cases h
-      exact ((s12.trans (gs_initSector h3)).trans (gs_setFat h4)).trans (GS.of_same ⟨rfl, rfl⟩)
+      exact ((s12.trans (gs_initSector h3)).trans (gs_setFat h4)).trans (GS.of_same ⟨rfl, rfl, rfl, rfl⟩)
     · cases h; exact s12
 
 theorem gs_allocateSector {p p' : P} {id : Nat} {k : Init} (h : allocateSector p k = .ok (p', id)) : GS p p' := by
@@ -108,7 +151,7 @@ theorem gs_allocateSector {p p' : P} {id : Nat} {k : Init} (h : allocateSector p
   · obtain ⟨p1, h1, h⟩ := bind_ok h
     obtain ⟨p2, h2, h⟩ := bind_ok h
     cases h
-    exact ((GS.of_same (⟨rfl, rfl⟩ : SameSecs p { p with free := p.free.dropLast })).trans (gs_setFat h1)).trans (gs_initSector h2)
+    exact ((GS.of_same (⟨rfl, rfl, rfl, rfl⟩ : SameSecs p { p with free := p.free.dropLast })).trans (gs_setFat h1)).trans (gs_initSector h2)
   · split at h
     · obtain ⟨p0, h0, h⟩ := bind_ok h
       obtain ⟨p1, h1, h⟩ := bind_ok h
@@ -150,7 +193,7 @@ theorem gs_freeChain (fuel : Nat) : ∀ {p p' : P} {cur : Nat}, freeChain p fuel
           | hang s => simp [h1] at h
           | ok p1 =>
             simp only [h1] at h
-            exact ((gs_setFat h1).trans (GS.of_same (⟨rfl, rfl⟩ : SameSecs p1 { p1 with free := p1.free ++ [cur] }))).trans (ih h)
+            exact ((gs_setFat h1).trans (GS.of_same (⟨rfl, rfl, rfl, rfl⟩ : SameSecs p1 { p1 with free := p1.free ++ [cur] }))).trans (ih h)
 
 theorem gs_freeChainFrom {p p' : P} {start : Nat} (h : freeChainFrom p start = .ok p') : GS p p' := gs_freeChain _ h
 
@@ -171,14 +214,14 @@ open CfbVerif.Raw CfbVerif.Dir
 
 theorem ssm_setMiniFat {p p' : P} {i v : Nat} (h : setMiniFat p i v = .ok p') : SameSecs p p' := by
   have := (setMiniFat_ok h).1
-  rw [this]; exact ⟨rfl, rfl⟩
+  rw [this]; exact ⟨rfl, rfl, rfl, rfl⟩
 
 theorem ssm_popFreeMini {p p1 : P} {fuel : Nat} {r : Option Nat} (h : popFreeMini p fuel = .ok (p1, r)) : SameSecs p p1 := by
   have := (popFreeMini_ok fuel h).1
-  rw [this]; exact ⟨rfl, rfl⟩
+  rw [this]; exact ⟨rfl, rfl, rfl, rfl⟩
 
 theorem SameSecs.trans {p q r : P} (h1 : SameSecs p q) (h2 : SameSecs q r) : SameSecs p r :=
-  ⟨h2.1.trans h1.1, h2.2.trans h1.2⟩
+  ⟨h2.1.trans h1.1, h2.2.1.trans h1.2.1, h2.2.2.1.trans h1.2.2.1, h2.2.2.2.trans h1.2.2.2⟩
 
 theorem ssm_freeMiniSector {p p' : P} {id : Nat} (h : freeMiniSector p id = .ok p') : SameSecs p p' := by
   unfold freeMiniSector at h
@@ -198,7 +241,7 @@ theorem ssm_freeMiniChain (fuel : Nat) : ∀ {p p' : P} {cur : Nat}, freeMiniCha
     intro p p' cur h
     unfold freeMiniChain at h
     split at h
-    · cases h; exact ⟨rfl, rfl⟩
+    · cases h; exact ⟨rfl, rfl, rfl, rfl⟩
     · split at h
       · cases h
       · split at h
@@ -215,8 +258,8 @@ theorem ssm_freeMiniChainAfter {p p' : P} {id : Nat} (h : freeMiniChainAfter p i
   · obtain ⟨p1, hs, h⟩ := bind_ok h
     exact (ssm_setMiniFat hs).trans (ssm_freeMiniChain _ h)
 
-theorem ssm_setStart (p : P) (slot start : Nat) : SameSecs p (setStart p slot start) := ⟨rfl, rfl⟩
-theorem ssm_dropStart (p : P) (slot : Nat) : SameSecs p (dropStart p slot) := ⟨rfl, rfl⟩
+theorem ssm_setStart (p : P) (slot start : Nat) : SameSecs p (setStart p slot start) := ⟨rfl, rfl, rfl, rfl⟩
+theorem ssm_dropStart (p : P) (slot : Nat) : SameSecs p (dropStart p slot) := ⟨rfl, rfl, rfl, rfl⟩
 
 /-- a write inside one mini sector stays inside the sector that holds it -/
 theorem gs_miniWriteAt {p p' : P} {m off : Nat} {bs : Bytes} (h : miniWriteAt p m off bs = .ok p')
@@ -238,7 +281,7 @@ theorem gs_reopen {p p' : P} (h : Phys.reopen p = .ok p') : GS p p' := by
   unfold Phys.reopen at h
   obtain ⟨chain, hc, h⟩ := bind_ok h
   cases h
-  exact GS.of_same ⟨rfl, rfl⟩
+  exact GS.of_same ⟨rfl, rfl, rfl, rfl⟩
 
 theorem gs_growOne {kind : Init} {p p' : P} {ids ids' : List Nat} (h : growOne kind p ids = .ok (p', ids')) : GS p p' := by
   unfold growOne at h
@@ -328,7 +371,7 @@ theorem gs_ensureRootRoom {p p' : P} (h : ensureRootRoom p = .ok p') : GS p p' :
   split at h
   · split at h
     · rename_i ha; cases h
-      exact (gs_allocateSector ha).trans (GS.of_same ⟨rfl, rfl⟩)
+      exact (gs_allocateSector ha).trans (GS.of_same ⟨rfl, rfl, rfl, rfl⟩)
     · cases h
     · cases h
     · cases h
@@ -350,7 +393,7 @@ theorem gs_appendMiniSector {p p' : P} (h : appendMiniSector p = .ok p') : GS p 
   unfold appendMiniSector at h
   split at h
   · rename_i hr; cases h
-    exact (gs_ensureRootRoom hr).trans (GS.of_same ⟨rfl, rfl⟩)
+    exact (gs_ensureRootRoom hr).trans (GS.of_same ⟨rfl, rfl, rfl, rfl⟩)
   · cases h
   · cases h
   · cases h
@@ -361,7 +404,7 @@ theorem gs_ensureMiniFatRoom {p p' : P} (h : ensureMiniFatRoom p = .ok p') : GS 
   split at h
   · split at h
     · rename_i ha; cases h
-      exact (gs_allocateSector ha).trans (GS.of_same ⟨rfl, rfl⟩)
+      exact (gs_allocateSector ha).trans (GS.of_same ⟨rfl, rfl, rfl, rfl⟩)
     · cases h
     · cases h
     · cases h
@@ -603,11 +646,11 @@ theorem gs_ensureDirSlot {p p' : P} {slot : Nat} (h : ensureDirSlot p slot = .ok
   · split at h
     · split at h
       · rename_i he; cases h
-        exact (gs_extendChain he).trans (GS.of_same ⟨rfl, rfl⟩)
+        exact (gs_extendChain he).trans (GS.of_same ⟨rfl, rfl, rfl, rfl⟩)
       · cases h
       · cases h
       · cases h
-    · cases h; exact GS.of_same ⟨rfl, rfl⟩
+    · cases h; exact GS.of_same ⟨rfl, rfl, rfl, rfl⟩
 
 
 
@@ -769,5 +812,17 @@ theorem ss_create (v4 : Bool) : SS (Phys.create v4) := by
 theorem ss_reachable (v4 : Bool) (maxBuf : Nat) (ops : List HOp) :
     SS (prun (PState.create v4 maxBuf) ops).p :=
   (gs_prun ops (PState.create v4 maxBuf)).ss (ss_create v4)
+
+theorem cap_create (v4 : Bool) : Cap (Phys.create v4) := by
+  unfold Cap P.epsec
+  have h1 : (Phys.create v4).fat.size = 2 := rfl
+  have h2 : (Phys.create v4).difat.length = 1 := rfl
+  rw [h1, h2]
+  rcases S_cases (Phys.create v4) with h | h <;> rw [h] <;> decide
+
+/-- **the FAT fits into its FAT sectors, after every history of API calls** -/
+theorem cap_reachable (v4 : Bool) (maxBuf : Nat) (ops : List HOp) :
+    Cap (prun (PState.create v4 maxBuf) ops).p :=
+  (gs_prun ops (PState.create v4 maxBuf)).cap (cap_create v4)
 
 end CfbVerif.Phys
